@@ -135,6 +135,8 @@ func ConsSeeds(v string) []string {
 		"decl \"foo\" {\n  bar = \"x\"\n}\nattr2 = " + v + "\n",
 		"attr =  " + v,
 		"blk {\n  count = 2\n  attr = " + v + "\n  nb {\n    attr = " + v + "\n  }\n}\n",
+		// a value inside a block that can see declarations of the same file
+		"decl \"foo\" {\n  bar = \"x\"\n  id = 1\n}\nblk {\n  attr = " + v + "\n}\n",
 	}
 }
 
